@@ -20,7 +20,7 @@ P0 == [inOpen |-> FALSE, outOpen |-> FALSE, active |-> 0, lastL |-> 0, opts |-> 
 
 Enabled(Kind, s, call) ==
   CASE call.fn \in {"Listen", "ListenOpts"}  -> s.active = 0
-    [] call.fn = "Stop"    -> s.lastL # 0
+    [] call.fn \in {"Stop", "BurstStop"} -> s.lastL # 0
     [] call.fn = "CloseIn" -> Kind = "midicat" \/ s.active = 0
     [] call.fn = "OpenInFail"  -> ~s.inOpen       \* the backing process cannot be started
     [] call.fn = "OpenOutFail" -> ~s.outOpen
@@ -40,6 +40,14 @@ PStep(Kind, s, call) ==
     [] call.fn = "ListenOpts" -> [s |-> [s EXCEPT !.inOpen = TRUE, !.active = s.lastL + 1, !.lastL = s.lastL + 1, !.opts = call.opts],
                                 ret |-> "nil", dlv |-> <<>>]
     [] call.fn = "Stop"     -> [s |-> [s EXCEPT !.active = 0], ret |-> "nil", dlv |-> <<>>]
+    \* a burst of sends immediately followed by stop(), without waiting for the deliveries: stop races with callbacks in flight.
+    \* Expected: `dlv` is what would be delivered if stop came last; the judge accepts any PREFIX of it (StepOk), and the
+    \* harness reports a callback that STARTS after stop() returned as a panic-like failure of the step.
+    [] call.fn = "BurstStop" -> [s |-> [s EXCEPT !.active = 0], ret |-> IF s.outOpen THEN "nil" ELSE "closed",
+                                dlv |-> IF Delivers(Kind, s)
+                                        THEN LET q == SelectSeq(call.msgs[1], LAMBDA m : PassesOpts(s.opts, m))
+                                             IN [i \in 1..Len(q) |-> [l |-> s.active, m |-> q[i]]]
+                                        ELSE <<>>]
     [] call.fn = "Send"     -> [s |-> s, ret |-> IF s.outOpen THEN "nil" ELSE "closed",
                                 dlv |-> IF Delivers(Kind, s) /\ PassesOpts(s.opts, call.m) THEN <<[l |-> s.active, m |-> call.m]>> ELSE <<>>]
 
